@@ -122,7 +122,16 @@ def dynamic_census(ctx, chk, rule):
                 chk.undecided(rule, f.where(n), "dynamic access `%s` defeats static resolution" % src(n))
             if isinstance(n, (ast.Global, ast.Nonlocal)):
                 pass  # judged by C10.2
-        if [d for d in f.node.decorator_list if not (isinstance(d, ast.Name) and d.id in ("staticmethod", "classmethod", "property"))]:
+        memo = [d for d in f.node.decorator_list if (call_name(d) if isinstance(d, ast.Call) else attr_path(d)) in shared.MEMO_DECORATORS]
+        if memo:
+            bad += 1
+            chk.violation(rule, f.where(memo[0]), "%s is memoised (`@%s`): answers computed during one solve (for node objects whose values change from sweep to sweep, and from "
+                          "solve to solve) are handed out again later - results depend on what was solved before" % (f.short, src(memo[0])),
+                          expected="no cache that outlives the values it was computed from", found="@" + src(memo[0]), construct="%s memoised" % f.short)
+            continue
+        if [d for d in f.node.decorator_list if not (isinstance(d, ast.Name) and d.id in ("staticmethod", "classmethod", "property"))
+                and not (isinstance(d, ast.Attribute) and d.attr in ("setter", "getter"))
+                and (call_name(d) if isinstance(d, ast.Call) else attr_path(d)) not in ("contextmanager", "contextlib.contextmanager", "functools.wraps")]:
             bad += 1
             chk.undecided(rule, f.where(), "decorated function: call resolution not guaranteed")
     if not bad:
